@@ -1032,6 +1032,10 @@ val hml_same : nat -> bool -> nat -> bits
 
 val enc_label : form -> nat -> bits -> bits
 
+type 'v amap = (bits * 'v) list
+
+val update : bits -> 'a1 -> 'a1 amap -> 'a1 amap
+
 type 'v apt =
 | ALeaf of form * bits * 'v
 | AFork of form * bits * 'v apt * 'v apt
@@ -1152,6 +1156,18 @@ val decode_aug_e :
 
 val clone_subset : bits list -> (bits * 'a1) list -> (bits * 'a1) list
 
+val find_in :
+  (bits -> cell0 list -> 'a1 option) -> nat -> nat -> bits -> cell0 -> bits
+  -> bits -> 'a1 res
+
+val find_key : (bits -> cell0 list -> 'a1 option) -> cell0 -> bits -> 'a1 res
+
+val balances_of : (bits * 'a1 option) list -> (bits * 'a1) list
+
+val account_balances :
+  bool -> (bits * 'a1 option) list -> (bits * 'a1 option) list ->
+  (bits * 'a1) list
+
 val venc_val : n -> bits * cell0 list
 
 val vdec_val : bits -> cell0 list -> n option
@@ -1252,6 +1268,12 @@ val nth_state : n -> (bits * n) list list -> (bits * n) list
 val run_cfg_steps : (bits * n) list list -> sx list -> sx list
 
 val run_cfg : sx -> sx
+
+val run_find : sx -> sx
+
+val accounts_sx : sx list -> (bits * n option) list option
+
+val run_bal : sx -> sx
 
 type strategy =
 | BestPing
@@ -1555,6 +1577,15 @@ val ids_of : sx list -> nat list
 val index_in : nat -> nat list -> nat -> nat option
 
 val run_add : sx -> sx
+
+val ev_step :
+  strategy -> nat -> (nat -> n) -> (state * (bool * z) list) -> sx ->
+  state * (bool * z) list
+
+val entry_result :
+  strategy -> nat -> (nat -> n) -> bool -> bool -> sx list -> sx list -> sx
+
+val run_entry : sx -> sx
 
 val run_repro : sx -> sx
 
@@ -2439,6 +2470,16 @@ val s_AccountDispatchQueue : schema
 
 val s_BlockInfoPart : schema
 
+val s_WalletDataV1V2 : schema
+
+val s_WalletDataV3 : schema
+
+val s_WalletDataV4 : schema
+
+val s_WalletDataHighloadV2 : schema
+
+val s_WalletDataV5R1 : schema
+
 val ext_in_value : z -> bits -> n -> value option -> ctree -> value
 
 val schema_table : (string * schema) list
@@ -2713,6 +2754,8 @@ val group_by_sender : nat -> (n list * n list) list -> sx list
 val run_conc0 : sx -> sx
 
 val run_stress : sx -> sx
+
+val run_multi0 : sx -> sx
 
 val run_magic : sx -> sx
 
@@ -4214,6 +4257,10 @@ val request_decode :
   bindings -> (((n * n) * string) * string) list -> nat -> bytes -> string
   option res
 
+val min_packet : n
+
+val packet_prealloc : bytes -> n
+
 val tl_bindings : bindings
 
 val tl_methods : method0 list
@@ -4269,6 +4316,12 @@ val run_methods : sx -> sx
 val run_accproof : sx -> sx
 
 val run_reqdec : sx -> sx
+
+val run_pktalloc : sx -> sx
+
+val c08_limit : string -> n option
+
+val run_limit : sx -> sx
 
 val is_up : ascii -> bool
 
